@@ -263,7 +263,19 @@ fn one_zone(c: &mut Ctx, rt: &tokio::runtime::Runtime, fam: &str, idx: u64) {
                 let glue: std::collections::BTreeSet<(Vec<u8>, u16)> = top_cuts.iter().flat_map(|cn| glue_of(&z, z.get(cn, T_NS).unwrap()).into_iter().map(|g| (g.0, g.1))).collect();
                 let visible = |r: &(Vec<u8>, u16, u32, Vec<u8>)| !cuts.iter().any(|cn| is_at_or_below(&r.0, cn) && r.0 != w::lower(cn)) || glue.contains(&(r.0.clone(), r.1));
                 let mrv: Vec<_> = model_records(&z).into_iter().filter(|r| visible(r)).collect();
-                let wrv: Vec<_> = wr.iter().filter(|r| visible(r)).cloned().collect();
+                let mut wrv: Vec<_> = wr.iter().filter(|r| visible(r)).cloned().collect();
+                // an address record that is glue of several delegations (a name server shared between cuts) is kept
+                // once per cut and enumerated once per cut: the same record several times, not another record
+                let before = wrv.len();
+                let mut i = 1;
+                while i < wrv.len() {
+                    if wrv[i] == wrv[i - 1] && glue.contains(&(wrv[i].0.clone(), wrv[i].1)) {
+                        wrv.remove(i);
+                    } else {
+                        i += 1;
+                    }
+                }
+                c.count("shared_glue_enumerated_once_per_cut", (before - wrv.len()) as u64);
                 c.count("occluded_records_not_compared", (model_records(&z).len() - mrv.len()) as u64);
                 if wrv != mrv {
                     let rp = c.replay_of(fam, idx, ex(h));
